@@ -26,6 +26,22 @@ def run(ctx):
     rnd.shuffle(txn)
     quick = ctx.tier == "quick"
     scs = cc.layout_scenarios(txn[:1200] if quick else txn, rnd, 2 if quick else 2, "txn", ["rc", "rc", "ru"])
+    # responses that START at a transaction marker whose producer id is used again afterwards (the
+    # aborted index entry of the finished transaction is still in the response): chosen from ALL
+    # enumerated logs, not from the quick sample
+    reuse = []
+    for l in txn:
+        for j, b in enumerate(l):
+            if b["ctl"] and any((not c["ctl"]) and c["txn"] and c["pid"] == b["pid"] for c in l[j + 1:]):
+                reuse.append((l, b["offs"][0]))
+    rnd.shuffle(reuse)
+    for k, (l, off) in enumerate(reuse[:160] if quick else reuse[:3000]):
+        lg = cc.add_codec(l, rnd)
+        for iso in ("rc", "ru"):
+            cfg = dict(version=rnd.choice(cc.V2_VERSIONS), iso=iso, fetchDefault=rnd.choice([130, 1 << 20, 1 << 20]),
+                       chanBuf=rnd.choice([0, 256]), leaders=[1], nbrokers=1, abortedReverse=rnd.random() < 0.5)
+            scs.append({"name": "txn-markerstart-%d-%s" % (k, iso), "family": "txn-markerstart", "cfg": cfg, "logs": {"0": lg},
+                        "consume": [{"part": 0, "start": off}], "expectAll": {"0": True}, "steps": []})
     withtx = [l for l in txn if any(b["ctl"] == "abort" for b in l)]
     scs += cc.fault_scenarios(withtx, rnd, 4 if quick else 30, family="txn-faults")
     for s in scs:
